@@ -339,7 +339,7 @@ def _validators(ctx, repo):
         ci = ctx.need(repo.cls(f"bromelia.process.{cname}"), cname)
         for mname in ("process_request", "process_answer"):
             fn = ctx.need(ci.methods.get(mname), f"{cname}.{mname}")
-            loop = next((s for s in fn.body if isinstance(s, ast.For)), None)
+            loop = next((s for s in walk_no_nested(fn) if isinstance(s, ast.For)), None)
             if loop is None:
                 ctx.undecided("R-DEP/peer-identity", f"{ci.qual}.{mname}", ci.where(fn), "no AVP loop", key="loop")
                 continue
@@ -350,6 +350,12 @@ def _validators(ctx, repo):
                     inc = any(isinstance(s, ast.AugAssign) and "mandatory" in ast.unparse(s.target) for s in n.body)
                     if inc:
                         mand.append((call_name(n.test).split(".")[-1], n.test))
+                elif isinstance(n, ast.If) and isinstance(n.test, ast.BoolOp) and isinstance(n.test.op, ast.Or) \
+                        and all(isinstance(v, ast.Call) for v in n.test.values):
+                    # `if a(avp) or b(avp) or c(avp): count += 1` is the same chain (first match counts once)
+                    if any(isinstance(s, ast.AugAssign) and "mandatory" in ast.unparse(s.target) for s in n.body):
+                        for v in n.test.values:
+                            mand.append((call_name(v).split(".")[-1], v))
             names = [x[0] for x in mand]
             okn = all(v in names for v in need)
             okc = all(ast.unparse(t.args[-1]) in ("self.connection",) for v, t in mand if v in need)
